@@ -91,23 +91,24 @@ Theorem line_without_macro_names_untouched : forall t s, absent t s -> expand t 
 Proof. exact expand_absent_id. Qed.
 Print Assumptions line_without_macro_names_untouched.
 
-(* The recorded ranges are those of the line as it was when the pass began; the faithful model
-   therefore does NOT satisfy "never inside a string literal": known finding C17-stale-string-ranges *)
-Theorem expand_not_in_strings_refuted :
-  exists t s, expand t s <> s /\ s = s2l "A ""B""" /\
-              expand t s = s2l "xxxxxxxx ""1""".
-Proof.
-  exists (define (define [] (s2l "A") (s2l "xxxxxxxx")) (s2l "B") (s2l "1")), (s2l "A ""B""").
-  vm_compute. repeat split. discriminate.
-Qed.
-Print Assumptions expand_not_in_strings_refuted.
+(* the repaired loop (fix: commits for C17-stale-string-ranges and C17-cap-100): each step of the sweep
+   over one macro replaces the first remaining whole-word occurrence outside the string literals of the
+   CURRENT text, and goes on with the rest of the line *)
+Theorem sweep_replaces_outside_current_strings : forall f name body s pos ch,
+  sweep (S f) name body s pos ch =
+  match search (S (List.length s)) name s (string_ranges s) pos with
+  | None => (s, ch)
+  | Some p => sweep f name body (replace_at s p (List.length name) body) (p + List.length body) true
+  end.
+Proof. exact sweep_unfold. Qed.
+Print Assumptions sweep_replaces_outside_current_strings.
 
-(* the 100-pass cap: the 101st use of a macro on one line is left unexpanded (known finding C17-cap) *)
-Theorem expand_full_refuted_by_cap :
-  let line := List.concat (List.repeat (s2l "N ") 101) in
-  exists t, expand t line = List.concat (List.repeat (s2l "1 ") 100) ++ s2l "N ".
-Proof. exists (define [] (s2l "N") (s2l "1")). vm_compute. reflexivity. Qed.
-Print Assumptions expand_full_refuted_by_cap.
+(* the two former counter-examples now behave as the property demands *)
+Theorem former_witnesses_repaired :
+  expand (define (define [] (s2l "A") (s2l "xxxxxxxx")) (s2l "B") (s2l "1")) (s2l "A ""B""") = s2l "xxxxxxxx ""B""" /\
+  expand (define [] (s2l "N") (s2l "1")) (List.concat (List.repeat (s2l "N ") 101)) = List.concat (List.repeat (s2l "1 ") 101).
+Proof. vm_compute. split; reflexivity. Qed.
+Print Assumptions former_witnesses_repaired.
 
 (* non-vacuity: a concrete three-level file meets the hypotheses and selects what one expects *)
 Example nested_example :
